@@ -553,7 +553,7 @@ and accepted cells with despite-method or both framing headers; distinct by enum
     ],
     randoms: &[RandomDef {
         name: "near_valid",
-        cases: |t: Tier| t.pick(300_000, 80_000_000),
+        cases: |t: Tier| t.pick(3_000_000, 80_000_000),
         tape_len: 24,
         exec: Some(exec_near_valid),
     }],
